@@ -39,12 +39,31 @@ class D3(DataClassDictMixin):
         allow_deserialization_not_by_alias = True
 
 @dataclass
+class D5(DataClassDictMixin):
+    raw: Any = field(metadata={"alias": "RAW"})
+    n: int = field(metadata={"alias": "N"})
+    p: str = field(metadata={"alias": "P", "deserialize": pass_through})
+    k: Optional[Any] = field(default=5, metadata={"alias": "K"})
+    class Config(BaseConfig):
+        allow_deserialization_not_by_alias = True
+
+@dataclass
+class D6(DataClassDictMixin):
+    y: int = field(metadata={"alias": "Y"})
+    hidden: int = field(init=False, default=0)
+    w: Any = None
+    class Config(BaseConfig):
+        allow_deserialization_not_by_alias = True
+        forbid_extra_keys = True
+
+@dataclass
 class D4:
     a: float
     m: Dict[str, int]
     i: Inner
 '''
-CLASSES = {"D1": ["a", "b", "c", "d"], "D2": ["a", "e", "l"], "D3": ["a", "u", "t"], "D4": ["a", "m", "i"]}
+CLASSES = {"D1": ["a", "b", "c", "d"], "D2": ["a", "e", "l"], "D3": ["a", "u", "t"], "D4": ["a", "m", "i"],
+           "D5": ["raw", "n", "p"], "D6": ["y", "w"]}
 
 ASSUMPTIONS = [
     "CrossHair 0.0.110 model of Python and z3 5.1.0",
